@@ -57,6 +57,22 @@ let ch inp impl =
          let ws = csv_of_list hex_of_bytes r.cr_writes in
          outs := Printf.sprintf "%s %s %d" rs ws consumed :: !outs;
          pouts := (project rs ^ " " ^ ws) :: !pouts
+       | "callwf" :: optoks ->
+         (* the Write call fails after part of the frame went out (tcp_transport.go
+            ExecuteRequest: the counter is advanced BEFORE the write, so the id is
+            consumed; the error is a deadline error, mapped to request-timed-out);
+            nothing is read *)
+         (match client_request !cfg (op_of_tokens optoks) with
+          | Ok req ->
+            (match framing with
+             | FMbap ->
+               txn := u16 (N.add !txn (n_of_int 1));
+               let ws = hex_of_bytes (assemble_mbap !txn req) in
+               outs := ("err:timeout " ^ ws ^ " 0") :: !outs; pouts := ("err:timeout " ^ ws) :: !pouts
+             | FRtu ->
+               let ws = hex_of_bytes (assemble_rtu req) in
+               outs := ("err:timeout " ^ ws ^ " 0") :: !outs; pouts := ("err:timeout " ^ ws) :: !pouts)
+          | _ -> outs := "err:params - 0" :: !outs; pouts := "err:params -" :: !pouts)
        | ["setunit"; u] -> cfg := { !cfg with c_unit = n_of_hex u }; outs := "ok" :: !outs; pouts := "ok" :: !pouts
        | ["setenc"; e; w] ->
          let ok v = v = "1" || v = "2" in
